@@ -41,6 +41,8 @@ theorem C01_step_partial (f : Forest) (n : Bool) (op : Op) (hf : f.ok = true) (h
   | lExtend t vs => simp [Proved] at hp
   | lIMul t k => simp [Proved] at hp
   | lSetSlice t a b c vs => simp [Proved] at hp
+  | lDelSlice t a b c => simp [Proved] at hp
+  | setSeal t flag => simp [Proved] at hp
   | dSetDefault t k v => simp [Proved] at hp
   | dUpdate t kvs => simp [Proved] at hp
   | rebind t pairs skip => simp [Proved] at hp
